@@ -9,7 +9,7 @@
 (*   bound   dif[0]                                                        *)
 (*   sat, rects, ret   what solve() returned (rects pulled back)           *)
 (*   models  EVERY model of the CNF solve() built (SATManager.clauses),    *)
-(*           projected on the literals b<i>_<cell>: a list of k lists of   *)
+(*           projected on the literals b<i>_<cell>: k bit masks over the   *)
 (*           cell numbers (full = 1: the enumeration is complete)          *)
 (* The spec's variables are bound to the observed values (cells, k, par,   *)
 (* weights, bound, res, last follow the calls as Call/Iterate would) and   *)
@@ -35,12 +35,13 @@ EXTENDS RectSearch, IOUtils
 
 Batch == JsonDeserialize(IOEnv.TRACE_FILE)
 
-VARIABLES tid, l, fails, drift, info
-tvars == <<vars, tid, l, fails, drift, info>>
+VARIABLES tid, l, fails, drift, info,
+          tab    \* FastTable(k) = the pairs <<shape as bit masks, cost>>, computed once per trace (step 0)
+tvars == <<vars, tid, l, fails, drift, info, tab>>
 
 T == Batch[tid]
 
-TraceInit == /\ tid \in 1..Len(Batch) /\ l = 0 /\ fails = {} /\ drift = {} /\ info = <<>>
+TraceInit == /\ tid \in 1..Len(Batch) /\ l = 0 /\ fails = {} /\ drift = {} /\ info = <<>> /\ tab = {}
              /\ mode = "solve" /\ pc = "call"
              /\ par = [den |-> Batch[tid].den, fnum |-> Batch[tid].fnum, fden |-> Batch[tid].fden, ratio |-> Batch[tid].ratio]
              /\ cells = Batch[tid].cells /\ k = Batch[tid].k
@@ -63,19 +64,22 @@ InputDrift ==
 Prep == /\ l = 0 /\ l' = 1
         /\ fails' = fails \cup Failed(WeightClauses)
         /\ drift' = drift \cup Failed(InputDrift)
+        /\ tab' = FastTable(k)
         /\ UNCHANGED <<vars, tid, info>>
 
 \* ---- one solve() call
 ObsResult(e) == [sat |-> e.sat, boxes |-> [ i \in DOMAIN e.rects |-> RectOf(e.rects[i]) ], ret |-> e.ret]
-ObsModels(e) == { [ i \in DOMAIN m |-> SeqRange(m[i]) ] : m \in SeqRange(e.models) }
+\* A model is transmitted as k bit masks (bit c-1 set <=> literal b<i>_<c> true): sets of tuples of integers are
+\* cheap for TLC to compare; only the spurious / missing ones are decoded into cell sets to name the clause they break.
+Decode(mm) == [ i \in DOMAIN mm |-> Bits(mm[i]) ]
 
 CallClauses(e) ==
-  LET Tab == Table(k)
+  LET Tab == tab
       r   == ObsResult(e)
-      M   == ObsModels(e)
-      E   == { SelOf(s) : s \in AdmitT(Tab, e.bound) }          \* what the statement admits
-      Sp  == M \ E                                               \* spurious models
-      Mi  == IF e.full = 1 THEN E \ M ELSE {}                    \* missing models
+      M   == SeqRange(e.models)
+      E   == AdmitT(Tab, e.bound)                                  \* what the statement admits
+      Sp  == { Decode(mm) : mm \in M \ E }                       \* spurious models (as tuples of cell sets)
+      Mi  == IF e.full = 1 THEN { Decode(mm) : mm \in E \ M } ELSE {}   \* missing models
       wf  == { m \in Sp : Len(m) = k /\ FullSel(m) }
   IN [ cl |->
         [ sat_iff_feasible     |-> (r.sat = 1) <=> FeasibleT(Tab, e.bound),
@@ -92,7 +96,7 @@ CallClauses(e) ==
        dr |->
         [ ret_value       |-> (r.sat = 1 /\ Len(r.boxes) = k /\ OnGrid(r.boxes)) => r.ret = Obj(r.boxes) + 1,
           unsat_ret       |-> r.sat = 0 => r.ret = 0,
-          result_is_model |-> (r.sat = 1 /\ Len(r.boxes) = k /\ OnGrid(r.boxes)) => SelOf(r.boxes) \in M,
+          result_is_model |-> (r.sat = 1 /\ Len(r.boxes) = k /\ OnGrid(r.boxes)) => MaskShape(r.boxes) \in M,
           \* a spurious model violates one of the four model clauses (Gen = Decl, model-checked in RectSearch)
           spurious_classified |-> Sp # {} => \E m \in Sp : ~(Len(m) = k /\ FullSel(m) /\ DisjointSel(m) /\ AbutSel(m) /\ ObjSel(m) >= e.bound) ],
        nf |-> [ l |-> l, models |-> Cardinality(M), expected |-> Cardinality(E),
@@ -109,12 +113,12 @@ Step == /\ l >= 1 /\ l <= Len(T.events)
              /\ drift' = drift \cup Failed(v.dr)
              /\ info' = IF v.nf.spurious + v.nf.missing > 0 THEN Append(info, v.nf) ELSE info
         /\ l' = l + 1
-        /\ UNCHANGED <<mode, pc, par, cells, k, xs, ys, nbr, wsel, wreal, boxes, sel, tid>>
+        /\ UNCHANGED <<mode, pc, par, cells, k, xs, ys, nbr, wsel, wreal, boxes, sel, tid, tab>>
 
 Done == /\ l = Len(T.events) + 1
         /\ l' = l + 1
         /\ PrintT(ToJson([tag |-> "VERDICT", id |-> T.id, fails |-> fails, drift |-> drift, info |-> info]))
-        /\ UNCHANGED <<vars, tid, fails, drift, info>>
+        /\ UNCHANGED <<vars, tid, fails, drift, info, tab>>
 
 TraceNext == Prep \/ Step \/ Done
 TraceSpec == TraceInit /\ [][TraceNext]_tvars
